@@ -76,3 +76,14 @@ Definition re_cfg_same (r : re) (vars : list rvar) (terms : list N) (prods : lis
   let M := re_cfg r in
   eqset (g_vars M) vars && eqset (g_terms M) terms && eqset (g_prods M) prods &&
   match g_start M with Some None => true | _ => false end.
+
+(* ---- C02: the proved model of minimize against the automaton pyformlang returns (same numbers of states, transitions, final states;
+   the isomorphism itself is forced by C02_minimize_canonical once the result carries its certificates) ---- *)
+From PFL Require Export Model.Minimize.
+Definition minimize_model_agrees (A R : enfa N) : bool :=
+  let M := minimize_model A FUEL in
+  match e_states M with
+  | [] => Nat.eqb (length (e_states R)) 1 && Nat.eqb (length (e_delta R)) 0 && Nat.eqb (length (e_finals R)) 0
+  | _ => Nat.eqb (length (e_states M)) (length (dedup (e_states R))) && Nat.eqb (length (e_delta M)) (length (dedup (e_delta R)))
+         && Nat.eqb (length (e_finals M)) (length (dedup (e_finals R)))
+  end.
